@@ -31,7 +31,9 @@ LS = 'cherab/core/model/lineshape/'
 K_REL = 1e-9            # DESIGN §3
 K_FLOOR = 2e-14         # x sum|R_c| / delta: erf differences carry an absolute error of a few 1e-16
 S_GAUSS_TOL = 1e-11     # x R: Sigma samples*Delta vs R x fraction (Gaussian family; the cut-off loses < 2e-23)
-S_LOR_TOL = 2e-3        # x R: Lorentzian (rtol 1e-5 quadrature per bin + un-truncated tail inside the edge bins <= 5.1e-4)
+LOR_DISC_TOL = 1e-4     # x R: a Lorentzian total further than this from [truncated, un-truncated-edge-bin] expectation is a discrepancy
+                        # (10 x the integrator's rtol); every discrepancy is then *attributed* (see attribute_lorentz)
+LOR_SIG = 'C02:add_lorentzian_line:GaussianQuadrature-under-resolved-bin'
 
 
 # ---------------------------------------------------------------------------------------------------------------------
@@ -363,6 +365,9 @@ class Run:
         self.lines = []          # driver input
         self.pending = []        # (line index, kind, implementation samples, floor, description)
         self.sampled = set()
+        self.lor_pending = []
+        self.cur_kidx = {}
+        self.k_ok = set()
         self.W = World()
         from raysect.core import Point3D, Vector3D
         self.P = Point3D(0.1, 0.2, 0.3)
@@ -392,8 +397,10 @@ class Run:
 
 def compare(ctx, run, outs):
     n = 0
+    run.k_ok = set()
     for idx, kind, impl, floor, desc in run.pending:
         o = outs[idx]
+        run.k_ok.add(idx)
         if isinstance(impl, str):
             # discrete outputs (object state, raised / not raised): exact comparison
             n += 1
@@ -403,6 +410,7 @@ def compare(ctx, run, outs):
                 if ctx.hist['disagreement:' + kind] <= 3:
                     ctx.broke('correspondence', 'C02 stream ' + kind, dict(input=desc, model=o, implementation=impl))
                 run.disagree.append((kind, desc))
+                run.k_ok.discard(idx)
             continue
         try:
             mod = [b2f(t) for t in o.split()]
@@ -424,6 +432,7 @@ def compare(ctx, run, outs):
                 ctx.broke('correspondence', 'C02 stream ' + kind,
                           dict(input=desc, first_difference=worst, model=(mod[:8] if mod else o[:200]), implementation=impl[:8]))
             run.disagree.append((kind, desc))
+            run.k_ok.discard(idx)
     ctx.traces = n
 
 
@@ -559,7 +568,6 @@ def stream_lorentz(run, n):
     from cherab.core.math.integrators import GaussianQuadrature
     rng, ctx = run.rng, run.ctx
     cut = run.src['cutL']
-    integ = GaussianQuadrature()
     for it in range(n):
         wl = rng.choice([656.1, 434.0, rng.uniform(300, 1000)])
         fw = rng.choice([10 ** rng.uniform(-3, 0), 0.05])
@@ -596,44 +604,59 @@ def stream_lorentz(run, n):
             fw = rng.choice([0.0, -0.2])
             cls = 'fwhm<=0'
         base = gen_base(rng, bins)
-        s = spectrum(mn, mn + dl * bins, bins, base)
-        mn, mx, dl = s.min_wavelength, s.max_wavelength, s.delta_wavelength
-        add_lorentzian_line(R, wl, fw, s, integ)
-        impl = [float(t) for t in s.samples]
-        ratio = dl / fw if fw > 0 else 0.0
-        desc = dict(call='add_lorentzian_line', radiance=R, wavelength=wl, fwhm=fw, min=mn, max=mx, bins=bins, window=cls,
-                    bin_width_over_fwhm=ratio, integrator='GaussianQuadrature()')
-        if run.src['lorentz_variant'] == 'cdf' and fw > 0:
-            tab = gtable(wl, fw, mn, dl, bins, cut)
-            kline = 'llc %s %s %d %s' % (fs([R, wl, fw]), spec_tokens(s, base), len(tab), fs([t for xg in tab for t in xg]))
-        else:
-            kline = 'll %s %s' % (fs([R, wl, fw]), spec_tokens(s, base))
-        run.k_case('ll', kline, impl, 1e-12 * abs(R) / dl + 1e-300, desc, key=(cls, f2b(wl), f2b(fw), bins))
-        added = [a - b for a, b in zip(impl, base)]
-        tot = math.fsum(added) * dl
-        if fw <= 0:
-            run.s_check(impl == [float(t) for t in base], 'C02:add_lorentzian_line:fwhm<=0-changes-spectrum', 'fwhm=%r changed the spectrum' % fw,
-                        desc, 'll-zero-width', (f2b(fw),))
-            continue
-        full, trunc = lorentz_oracle(R, wl, fw, mn, mx, dl, bins, cut)
-        if run.src['lorentz_variant'] == 'cdf':
-            # closed-form bin integrals, clipped at the cut-offs: the truncated normalised profile, to rounding
-            full = trunc
-            ltol = 1e-9
-        else:
-            ltol = S_LOR_TOL
-        lo = min(full, trunc) - ltol * R - 1e-12 * sum(abs(t) for t in base) * dl
-        hi = max(full, trunc) + ltol * R + 1e-12 * sum(abs(t) for t in base) * dl
-        ok = lo <= tot <= hi
-        sig = ('C02:add_lorentzian_line:GaussianQuadrature-under-resolved-bin' if ratio >= 2.0
-               else 'C02:add_lorentzian_line:integral!=R*window-fraction')
-        run.s_check(ok, sig,
-                    'add_lorentzian_line(R=%r, wavelength=%r, fwhm=%r) on Spectrum(%r, %r, %d) [bin width = %.3g FWHM]: Sigma added*delta = %r but '
-                    'R x (fraction of the normalised profile in the window) = %r' % (R, wl, fw, mn, mx, bins, ratio, tot, trunc),
-                    desc, 'll-integral', (cls, bins, f2b(fw)))
-        if not ok and ratio >= 2.0:
-            ctx.count('S:ll-under-resolved-hit')
-            run.lorentz_defect_seen = True
+        lorentz_case(run, R, wl, fw, mn, mn + dl * bins, bins, base, cls)
+
+
+def lorentz_case(run, R, wl, fw, mn, mx, bins, base, cls, origin=None):
+    """one call of add_lorentzian_line: K case, reference line (model with the exact bin integral), S oracle.  A total that
+    is off by more than the tolerance is queued for attribution (attribute_lorentz), not reported here."""
+    from cherab.core.model.lineshape import add_lorentzian_line
+    ctx = run.ctx
+    cut = run.src['cutL']
+    s = spectrum(mn, mx, bins, base)
+    mn, mx, dl = s.min_wavelength, s.max_wavelength, s.delta_wavelength
+    add_lorentzian_line(R, wl, fw, s, run.default_integrator)
+    impl = [float(t) for t in s.samples]
+    ratio = dl / fw if fw > 0 else 0.0
+    desc = dict(call='add_lorentzian_line', radiance=R, wavelength=wl, fwhm=fw, min=mn, max=mx, bins=bins, window=cls,
+                bin_width_over_fwhm=ratio, integrator='GaussianQuadrature()')
+    if origin:
+        desc['origin'] = origin
+    variant = run.src['lorentz_variant']
+    tab = gtable(wl, fw, mn, dl, bins, cut) if fw > 0 else []
+    if variant == 'cdf' and fw > 0:
+        kline = 'llc %s %s %d %s' % (fs([R, wl, fw]), spec_tokens(s, base), len(tab), fs([t for xg in tab for t in xg]))
+    else:
+        kline = 'll %s %s' % (fs([R, wl, fw]), spec_tokens(s, base))
+    run.k_case('ll', kline, impl, 1e-12 * abs(R) / dl + 1e-300, desc, key=(cls, f2b(wl), f2b(fw), bins))
+    kidx = len(run.lines) - 1
+    added = [a - b for a, b in zip(impl, base)]
+    tot = math.fsum(added) * dl
+    if fw <= 0:
+        run.s_check(impl == [float(t) for t in base], 'C02:add_lorentzian_line:fwhm<=0-changes-spectrum', 'fwhm=%r changed the spectrum' % fw,
+                    desc, 'll-zero-width', (f2b(fw),))
+        return
+    full, trunc = lorentz_oracle(R, wl, fw, mn, mx, dl, bins, cut)
+    bsum = sum(abs(t) for t in base)
+    if variant == 'cdf':
+        # closed-form bin integrals, clipped at the cut-offs: the truncated normalised profile, to rounding
+        ok = abs(tot - trunc) <= 1e-9 * R + 1e-12 * bsum * dl
+        run.s_check(ok, 'C02:add_lorentzian_line:integral!=R*window-fraction',
+                    'add_lorentzian_line(R=%r, wavelength=%r, fwhm=%r) on Spectrum(%r, %r, %d): Sigma added*delta = %r, R x window fraction = %r'
+                    % (R, wl, fw, mn, mx, bins, tot, trunc), desc, 'll-integral', (cls, bins, f2b(fw)))
+        return
+    # expected: R x fraction of the normalised profile in the window; the two edge bins integrate the un-truncated profile,
+    # which may add up to 5.1e-4 R (noted, accepted): interval [truncated, un-truncated]
+    elo, ehi = min(full, trunc), max(full, trunc)
+    ok = elo - LOR_DISC_TOL * R - 1e-12 * bsum * dl <= tot <= ehi + LOR_DISC_TOL * R + 1e-12 * bsum * dl
+    ctx.count('S:ll-integral')
+    ctx.case(key=('S', 'll-integral', cls, bins, f2b(fw)))
+    # reference run of the *model* with the exact bin integral (same window logic, no quadrature)
+    run.cmd('llx %s %s %d %s' % (fs([R, wl, fw]), spec_tokens(s, [0.0] * bins), len(tab), fs([t for xg in tab for t in xg])))
+    run.lor_pending.append(dict(kind='primitive', ok=ok, kidx=kidx, xidx=len(run.lines) - 1, tot=tot, elo=elo, ehi=ehi, trunc=trunc, R=R, dl=dl,
+                                ratio=ratio, desc=desc,
+                                text='add_lorentzian_line(R=%r, wavelength=%r, fwhm=%r) on Spectrum(%r, %r, %d) [bin width = %.3g FWHM]: Sigma added*delta = %r '
+                                     'but R x (fraction of the normalised profile in the window) = %r' % (R, wl, fw, mn, mx, bins, ratio, tot, trunc)))
 
 
 def stream_starkfunction(run, n):
@@ -856,6 +879,7 @@ def stream_models(run, n):
         base = gen_base(rng, bins)
         run.W.set_env(e)
         res = {}
+        run.cur_kidx = {}
         ok_build = True
         for pol in ('no', 'pi', 'sigma'):
             try:
@@ -881,6 +905,7 @@ def stream_models(run, n):
                     deferred.append((pol, R, e, extra, s, base, impl, floor, desc, key))
                 else:
                     run.k_case('m-' + kind, model_line(kind, pol, R, e, extra, s, base), impl, floor, desc, key=key)
+                    run.cur_kidx[pol] = len(run.lines) - 1
             if kind in ('gauss', 'mult'):
                 break
         if not ok_build:
@@ -984,38 +1009,109 @@ def stark_oracle(run, e, R, extra, res, base, cls, desc):
         else:
             pe = HC / e['wl']
             parts = [(zw[0], dop(e['wl'])), (zw[1], dop(HC / (pe - MUB * bmag))), (zw[1], dop(HC / (pe + MUB * bmag)))]
-        want = 0.0
-        lor_err = 0.0
-        under = False
+        want_lo = want_hi = 0.0
         for Rc, w in parts:
             if Rc == 0:
                 continue
             if lw < 1.0:
-                want += (1 - lw) * Rc * gauss_fraction(mn, mx, w, sg)
+                g_ = (1 - lw) * Rc * gauss_fraction(mn, mx, w, sg)
+                want_lo += g_
+                want_hi += g_
             if lw > 0.0:
                 full, trunc = lorentz_oracle(lw * Rc, w, fv, mn, mx, dl, bins, cutL)
-                want += trunc
-                # what the Lorentzian primitive really delivers for this component
-                t = spectrum(mn, mx, bins)
-                add_lorentzian_line(lw * Rc, w, fv, t, run.default_integrator)
-                lor_err += math.fsum(float(v) for v in t.samples) * dl - trunc
-                under = under or dl / fv >= 2.0
+                if run.src['lorentz_variant'] == 'cdf':
+                    full = trunc
+                want_lo += min(full, trunc)
+                want_hi += max(full, trunc)
         added = [a - b for a, b in zip(impl, base)]
         tot = math.fsum(added) * dl
-        ltol = 1e-8 if run.src['lorentz_variant'] == 'cdf' else S_LOR_TOL
+        ltol = 1e-8 if run.src['lorentz_variant'] == 'cdf' else LOR_DISC_TOL
         tol = (ltol if lw > 0 else 1e-9) * abs(R) + 1e-12 * sum(abs(t) for t in base) * dl + 1e-300
-        ok = abs(tot - want) <= tol
+        ok = want_lo - tol <= tot <= want_hi + tol
         d2 = dict(desc, polarisation=pol, lorentz_weight=lw, fwhm_full=fv, bin_width_over_fwhm=dl / fv)
-        if not ok and under and abs((tot - want) - lor_err) <= tol:
-            # same root cause as the primitive: report under the primitive's signature
-            run.s_check(False, 'C02:add_lorentzian_line:GaussianQuadrature-under-resolved-bin',
-                        'StarkBroadenedLine (pol %s) on Spectrum(%r, %r, %d): Sigma added*delta = %r, expected %r; the error %r is the one of '
-                        'add_lorentzian_line for a bin width of %.3g FWHM' % (pol, mn, mx, bins, tot, want, lor_err, dl / fv), d2, 'stark-integral', (pol, cls))
-            run.lorentz_defect_seen = True
+        text = ('StarkBroadenedLine (pol %s) on Spectrum(%r, %r, %d) [bin width = %.3g FWHM of the Lorentzian part, weight %.3g]: Sigma added*delta = %r, '
+                'documented pseudo-Voigt fraction x radiance = %r' % (pol, mn, mx, bins, dl / fv, lw, tot, want_lo))
+        if lw > 0 and run.src['lorentz_variant'] != 'cdf':
+            run.ctx.count('S:stark-integral')
+            run.ctx.case(key=('S', 'stark-integral', pol, cls, e['bclass']))
+            if not ok:
+                # queued: attributed to the quadrature only if K agrees and the model with the exact bin integral is right
+                run.lor_pending.append(dict(kind='stark', ok=False, kidx=run.cur_kidx.get(pol), tot=tot, elo=want_lo, ehi=want_hi, R=R, dl=dl,
+                                            ratio=dl / fv, desc=d2, text=text, pol=pol, e=e, extra=extra, spec=s, base=base))
         else:
-            run.s_check(ok, 'C02:StarkBroadenedLine:integral!=R*window-fraction',
-                        'StarkBroadenedLine (pol %s): Sigma added*delta = %r, documented pseudo-Voigt fraction x radiance = %r' % (pol, tot, want),
-                        d2, 'stark-integral', (pol, cls, e['bclass']))
+            run.s_check(ok, 'C02:StarkBroadenedLine:integral!=R*window-fraction', text, d2, 'stark-integral', (pol, cls, e['bclass']))
+
+
+def attribute_lorentz(ctx, run, outs):
+    """Every Lorentzian total that missed its expectation is attributed.  It belongs to the known quadrature finding
+    (LOR_SIG) iff (a) K agrees for that very call — the implementation *is* the transcribed per-bin GaussianQuadrature —
+    and (b) the same model run with the exact (closed-form) bin integral gives the expected value, i.e. window edges,
+    normalisation and weights are right and the whole discrepancy is the quadrature's.  Anything else keeps its own
+    signature and is a violation."""
+    attributed = []
+    # reference runs for the Stark-model discrepancies: second driver pass in 'exact' mode
+    starks = [p for p in run.lor_pending if p['kind'] == 'stark' and not p['ok']]
+    if starks:
+        cutL = run.src['cutL']
+        mc = ['mc %s %s %s %s' % (p['pol'], f2b(p['R']), env_tokens(p['e']), fs(p['extra']['cab'])) for p in starks]
+        comps = ctx.driver(mc)
+        lines = ['cfg %s' % fs([run.src['cutG'], cutL, run.normC, run.default_integrator.relative_tolerance]), 'mode exact']
+        for p, o in zip(starks, comps):
+            vals = [b2f(t) for t in o.split()]
+            s = p['spec']
+            trip = []
+            for j in range(0, len(vals), 3):
+                if vals[j + 2] > 0:
+                    trip += [(vals[j + 1], x, g) for x, g in gtable(vals[j + 1], vals[j + 2], s.min_wavelength, s.delta_wavelength, s.bins, cutL)]
+            lines.append('gtab %d %s' % (len(trip), fs([t for tr in trip for t in tr])))
+            lines.append(model_line('stark', p['pol'], p['R'], p['e'], p['extra'], s, [0.0] * s.bins))
+            p['xidx2'] = len(lines) - 1
+        outs2 = ctx.driver(lines)
+    for p in run.lor_pending:
+        ref_line = outs[p['xidx']] if p['kind'] == 'primitive' else (outs2[p['xidx2']] if not p['ok'] else None)
+        if ref_line is None:
+            continue
+        try:
+            ref = math.fsum(b2f(t) for t in ref_line.split()) * p['dl']
+        except ValueError:
+            ref = float('nan')
+        R = p['R']
+        # the reference (closed form) and the oracle (adaptive quadrature) both evaluate |x - x0| / fwhm: conditioning ~ ulp(x0) / fwhm
+        wl_, fw_ = (p['desc']['wavelength'], p['desc']['fwhm']) if p['kind'] == 'primitive' else (p['e']['wl'], p['desc']['fwhm_full'])
+        btol = (1e-8 + 16 * math.ulp(wl_) / fw_) * R
+        b_ok = p['elo'] - btol <= ref <= p['ehi'] + btol
+        if p['ok']:
+            # no discrepancy on the implementation; the reference model must be right as well (monitor of the tie)
+            if not b_ok:
+                ctx.broke('correspondence', 'C02 reference (exact bin integral) vs oracle', dict(input=p['desc'], reference=ref, expected=[p['elo'], p['ehi']]))
+            continue
+        a_ok = p['kidx'] is not None and p['kidx'] in run.k_ok
+        ctx.count('S:lorentz-discrepancy')
+        if a_ok and b_ok:
+            attributed.append(p)
+            ctx.count('S:lorentz-discrepancy-attributed-to-quadrature')
+        else:
+            why = []
+            if not a_ok:
+                why.append('the implementation does not equal the model with the transcribed GaussianQuadrature (K)')
+            if not b_ok:
+                why.append('the model with the exact bin integral gives %r, expected [%r, %r]' % (ref, p['elo'], p['ehi']))
+            sig = 'C02:add_lorentzian_line:integral!=R*window-fraction' if p['kind'] == 'primitive' else 'C02:StarkBroadenedLine:integral!=R*window-fraction'
+            ctx.count('S-fail:' + sig)
+            ctx.fail(sig, p['text'] + ' -- not explained by the bin quadrature: ' + '; '.join(why), p['desc'])
+    if attributed:
+        run.lorentz_defect_seen = True
+        worst = max(attributed, key=lambda p: (p['kind'] == 'primitive', max(p['elo'] - p['tot'], p['tot'] - p['ehi']) / p['R']))
+        lo_r = min(p['ratio'] for p in attributed)
+        hi_r = max(p['ratio'] for p in attributed)
+        ctx.extra['lorentz_quadrature_finding'] = dict(cases=len(attributed), bin_width_over_fwhm=[lo_r, hi_r],
+                                                       tolerance_x_R=LOR_DISC_TOL, stark_model_cases=sum(1 for p in attributed if p['kind'] == 'stark'))
+        ctx.count('S-fail:' + LOR_SIG, len(attributed))
+        ctx.fail(LOR_SIG,
+                 'the per-bin GaussianQuadrature (rtol 1e-5, orders 1..50) of add_lorentzian_line misses its tolerance on the cusp of the Stark profile: '
+                 '%d calls in this run deviate from R x window fraction by more than %g R, at bin widths from %.3g to %.3g FWHM (every bin where the shipped '
+                 'quadrature misses its rtol is covered by this signature; attribution: K agrees with the transcribed quadrature and the model with the exact bin '
+                 'integral gives the expected value).  Worst: %s' % (len(attributed), LOR_DISC_TOL, lo_r, hi_r, worst['text']), worst['desc'])
 
 
 def stream_ratios(run, n):
@@ -1576,11 +1672,12 @@ def run(ctx):
         ctx.broke('correspondence', 'C02 driver erf', dict(max_rel_error=worst))
     check_source_constants(run_, outs, i_consts, i_coef)
     compare(ctx, run_, outs)
+    attribute_lorentz(ctx, run_, outs)
 
     # a broken correspondence must end in a concrete failing input: the S oracles above already ran on every K case
     # (same inputs), so a property-level failure of a disagreeing case has been reported by them; nothing to add here.
     if run_.lorentz_defect_seen:
-        ctx.extra['note'] = ('add_lorentzian_line violates the normalisation clause for bins wider than ~8 FWHM (see notes/C02.md); '
+        ctx.extra['note'] = ('add_lorentzian_line violates the normalisation clause wherever its bin quadrature misses the cusp (see notes/C02.md); '
                              'the model reproduces the implementation (K agrees), the theorem lorentz_bins_telescope_partial needs an additive integrator')
 
 
@@ -1590,19 +1687,12 @@ def replay_case(run_, case, from_corpus=None):
     d = case.get('replay', case)
     call = d.get('call')
     if call == 'add_lorentzian_line':
-        s = spectrum(d['min'], d['max'], d['bins'])
-        add_lorentzian_line(d['radiance'], d['wavelength'], d['fwhm'], s, run_.default_integrator)
-        tot = float(np.sum(s.samples)) * s.delta_wavelength
-        full, trunc = lorentz_oracle(d['radiance'], d['wavelength'], d['fwhm'], s.min_wavelength, s.max_wavelength, s.delta_wavelength, s.bins, run_.src['cutL'])
-        ok = min(full, trunc) - S_LOR_TOL * d['radiance'] <= tot <= max(full, trunc) + S_LOR_TOL * d['radiance']
-        ratio = s.delta_wavelength / d['fwhm']
-        run_.s_check(ok, 'C02:add_lorentzian_line:GaussianQuadrature-under-resolved-bin' if ratio >= 2 else 'C02:add_lorentzian_line:integral!=R*window-fraction',
-                     'replay%s: add_lorentzian_line(R=%r, wavelength=%r, fwhm=%r) on Spectrum(%r, %r, %d): Sigma*delta = %r, R x window fraction = %r'
-                     % (' ' + from_corpus if from_corpus else '', d['radiance'], d['wavelength'], d['fwhm'], d['min'], d['max'], d['bins'], tot, trunc),
-                     d, 'corpus', (from_corpus or 'replay',))
-        if not ok:
-            run_.lorentz_defect_seen = True
-        return ok, tot, trunc
+        # queued like every other Lorentzian call: reported after the driver run, once the discrepancy (if any) is attributed
+        n0 = len(run_.lor_pending)
+        lorentz_case(run_, d['radiance'], d['wavelength'], d['fwhm'], d['min'], d['max'], d['bins'], [0.0] * d['bins'], d.get('window', 'replay'),
+                     origin=from_corpus or 'replay')
+        p = run_.lor_pending[n0] if len(run_.lor_pending) > n0 else None
+        return (p['ok'] if p else True), (p['tot'] if p else None), (p['trunc'] if p else None)
     if call == 'add_gaussian_line':
         s = spectrum(d['min'], d['max'], d['bins'])
         add_gaussian_line(d['radiance'], d['wavelength'], d['sigma'], s)
@@ -1675,12 +1765,17 @@ def replay_model(run_, d):
     R = d['radiance']
     run_.W.set_env(e)
     res = {}
+    run_.cur_kidx = {}
     base = [0.0] * d['bins']
     for pol in ('no', 'pi', 'sigma'):
         m = build_model(run_, kind, e, pol, extra)
         s = spectrum(d['min'], d['max'], d['bins'])
         m.add_line(R, run_.P, run_.V(*e['dir']), s)
         res[pol] = ([float(t) for t in s.samples], s)
+        if kind == 'stark' and run_.src['lorentz_variant'] != 'cdf':
+            run_.k_case('m-stark', model_line('stark', pol, R, e, extra, s, base), res[pol][0], 1e-11 * abs(R) / s.delta_wavelength + 1e-300,
+                        dict(d, polarisation=pol), key=('replay', pol))
+            run_.cur_kidx[pol] = len(run_.lines) - 1
         if kind in ('gauss', 'mult'):
             break
     before = len(run_.ctx.failing) + len(run_.ctx.known_hits)
@@ -1699,11 +1794,21 @@ def replay(ctx, path):
     run_.lorentz_defect_seen = False
     run_.src = read_source_constants()
     from cherab.core.math.integrators import GaussianQuadrature
+    from cherab.core.model.lineshape.stark import StarkFunction
     run_.default_integrator = GaussianQuadrature()
+    run_.normC = float(StarkFunction.STARK_NORM_COEFFICIENT)
+    set_default_rules(run_)
+    if run_.src['lorentz_variant'] == 'cdf':
+        run_.cmd('mode cdf')
     res = replay_case(run_, r)
     if res is None:
-        print('replay: stored input is a model-level case; re-running the full check')
+        print('replay: stored input is not a single-call case; re-running the full check')
         run(ctx)
-    else:
-        print('replay: property %s on the stored input: implementation %r, oracle %r' % ('HOLDS' if res[0] else 'VIOLATED', res[1], res[2]))
+        return ctx.finish()
+    outs = ctx.driver(run_.lines)
+    compare(ctx, run_, outs)
+    attribute_lorentz(ctx, run_, outs)
+    bad = [f['signature'] for f in ctx.failing] + [k['signature'] for k in ctx.known_hits]
+    print('replay: property %s on the stored input (implementation %r, oracle %r)%s'
+          % ('VIOLATED' if bad else 'HOLDS', res[1], res[2], ' -> ' + ', '.join(bad) if bad else ''))
     return ctx.finish()
